@@ -72,6 +72,8 @@ def grid(kind, m, seed=0):
         return [-v for v in reversed(_IRREGULAR[:m])]
     if kind == "int":
         return _INTS[:m]
+    if kind == "uint":  # unsigned integer scores, smallest value 0
+        return [0, 1, 3, 4, 7, 9, 12, 20, 21, 33, 40, 41, 50][:m]
     if kind == "unit":  # inside [0,1], for FraudScores-like uses
         return [i / 8.0 for i in range(m)]
     if kind == "dyadic":
